@@ -8,7 +8,7 @@ Ops (byte strings hex-encoded, `-` = empty):
   esc k                  -> hex            pathEscape
   unesc s                -> some hex|none  pathUnescape
   jenc s                 -> hex            journalEnc Gen.journalPairs
-  forkid parts           -> some hex|none  forkIdString Gen.forkIdReenters
+  forkid parts           -> some hex|none  forkIdString Gen.forkIdReenters Gen.forkIdSkipsEmpty
        parts = `;`-separated: `a:<idx>:<len>:<0|1>` | `k:<hexkey>:<hexlist>:<0|1>` | `u` | `e`; `.` = no parts
   pad w n                -> hex            padded
   width n                -> nat            widthForInt
@@ -60,7 +60,7 @@ def handle (op : String) (args : List String) : Option String :=
     pure (hexOfBytes (journalEnc Gen.journalPairs s))
   | "forkid", [ps] => do
     let ps ← parseParts ps
-    pure (optHex (forkIdString Gen.forkIdReenters ps))
+    pure (optHex (forkIdString Gen.forkIdReenters Gen.forkIdSkipsEmpty ps))
   | "pad", [w, n] => do
     let w ← w.toNat?
     let n ← n.toNat?
